@@ -169,7 +169,11 @@ func c09(r *vc.Run) int {
 				ref += "?" + q
 			}
 			if rng.Intn(6) == 0 {
-				ref += "#" + pick(rng, genSegs)
+				frag := pick(rng, genSegs)
+				if rng.Intn(3) == 0 {
+					frag = "" // a bare trailing '#': an empty fragment is a fragment too
+				}
+				ref += "#" + frag
 			}
 			if rng.Intn(8) == 0 {
 				qc := pick(rng, []string{`"`, `'`})
